@@ -233,6 +233,8 @@ class Inliner:
             # component added later that shipped ones delegate to is read through
             if f is None or opaque_decorators(f.node, registered=name not in SHIPPED):
                 return None
+            if f.node.decorator_list and name in _pinned_functions() and name not in self.cross:
+                return None      # a memoised function of the pinned tree (dijkstra) is vocabulary
             if name == 'factory':
                 return None
         fn = f.node
